@@ -6,7 +6,7 @@ MODULES = ["Percival.Properties.C13"]
 
 
 def gen_heap(rng, tier, mult):
-    n = (400 if tier == "quick" else 6000) * mult
+    n = (8000 if tier == "quick" else 40000) * mult
     cases = []
     for ci in range(n):
         r = rng.fork("h%d" % ci)
@@ -49,7 +49,7 @@ def gen_heap(rng, tier, mult):
 
 
 def gen_tq(rng, tier, mult):
-    n = (300 if tier == "quick" else 5000) * mult
+    n = (6000 if tier == "quick" else 30000) * mult
     cases = []
     for ci in range(n):
         r = rng.fork("t%d" % ci)
